@@ -577,7 +577,7 @@ Lemma bridge_d : forall ops st ls, rel st ls ->
   forallb (fun c => snd c) (clauses_d ls ops (run_d st ops)) = true.
 Proof.
   induction ops as [|op ops IH]; intros st ls Hr; [reflexivity|].
-  destruct op as [es|p|d]; cbn [run_d clauses_d].
+  destruct op as [es|p|d|defect via d]; cbn [run_d clauses_d].
   - unfold load_chain. destruct (forallb engine_valid es) eqn:Ev; cbn [b2z Z.eqb forallb snd orb];
       cbn; apply IH; cbn; auto.
   - destruct (new_static p) as [es|] eqn:En; cbn [b2z]; cbn; apply IH; cbn; eauto.
@@ -588,6 +588,46 @@ Proof.
       rewrite (is_authorized_sem_b d es (valid_actions_ok es Hv)). apply sel_refl.
     + destruct Hr as [es [Hn Hs]]. subst. cbn [snd].
       rewrite (new_static_sem p es d Hn). apply sel_refl.
+  - assert (Hal : forall es, st = Some es -> ls <> LNone /\ is_authorized d es = allowed_b ls d).
+    { intros es Hs. destruct ls as [|es'|p]; cbn in Hr.
+      - congruence.
+      - destruct Hr as [Hs' Hv]. split; [discriminate|]. assert (es' = es) by congruence. subst es'.
+        exact (is_authorized_sem_b d es (valid_actions_ok es Hv)).
+      - destruct Hr as [es' [Hn Hs']]. split; [discriminate|]. assert (es' = es) by congruence. subst es'.
+        exact (new_static_sem p es d Hn). }
+    unfold call_word. destruct st as [es|].
+    + destruct (Hal es eq_refl) as [Hne Ha]. unfold intercept. rewrite Ha.
+      rewrite forallb_app, (IH (Some es) ls Hr), andb_true_r.
+      unfold call_clauses.
+      destruct (defect =? 0) eqn:Ed; cbn [negb fst snd b2z];
+        destruct ls as [|es'|p]; try congruence;
+        destruct (allowed_b _ d); reflexivity.
+    + assert (ls = LNone) by (destruct ls as [|es'|p]; cbn in Hr; [reflexivity|destruct Hr; congruence|destruct Hr as [? [? ?]]; congruence]).
+      subst ls. rewrite forallb_app, (IH None LNone Hr), andb_true_r. reflexivity.
+Qed.
+
+(* the interceptor, in the words of the property: an RPC reaches the service handler only
+   if its context was complete (so that the policy was evaluated) and the policy allows it *)
+Lemma handler_only_if_allowed : forall p es defect d, new_static p = Some es ->
+  snd (intercept es defect d) = true ->
+  defect = 0 /\ ~ Exists (srule_matches d) (s_deny p) /\ Exists (srule_matches d) (s_allow p).
+Proof.
+  intros p es defect d Hn H. unfold intercept in H.
+  destruct (defect =? 0) eqn:Ed; cbn [negb] in H; [|discriminate].
+  apply Z.eqb_eq in Ed. split; [exact Ed|].
+  destruct (is_authorized d es) eqn:Ea; [|discriminate].
+  rewrite (new_static_sem p es d Hn) in Ea. unfold sdk_sem_b in Ea.
+  apply andb_true_iff in Ea. destruct Ea as [E1 E2]. split.
+  - intro Hex. apply existsb_Exists in Hex. unfold srule_matches in *. rewrite Hex in E1. discriminate.
+  - apply existsb_Exists. exact E2.
+Qed.
+
+Lemma handler_iff : forall es defect d,
+  snd (intercept es defect d) = true <-> defect = 0 /\ is_authorized d es = true.
+Proof.
+  intros. unfold intercept. destruct (defect =? 0) eqn:Ed; cbn [negb].
+  - apply Z.eqb_eq in Ed. destruct (is_authorized d es); cbn; split; intro H; try tauto; try discriminate.
+  - apply Z.eqb_neq in Ed. cbn. split; [discriminate|]. intros [H _]. contradiction.
 Qed.
 
 Lemma model_trace_holds : forall ops, ops_wf ops = true ->
